@@ -11,6 +11,7 @@ import (
 	"math/big"
 	"sort"
 
+	"verif/harness/model"
 	"verif/harness/spec"
 )
 
@@ -26,6 +27,7 @@ type outcome struct {
 	unordered bool     // top-level sequence order follows a set's (undefined) iteration order: compare as a multiset
 	numTol    bool     // numbers were produced by inexact repeated addition: compare with tolerance
 	tol       *big.Rat // absolute tolerance when numTol
+	skipRaw   bool     // the reference numbers are exact but held at another precision than the library's: RawEquals (text at own precision) does not apply
 	why       string   // reason for abstaining / being out of domain
 	flags     []string // what makes the case interesting (labels; non-triviality)
 }
@@ -809,6 +811,11 @@ func refRange(args []spec.V) outcome {
 		return ood("zero step")
 	}
 	diff := new(big.Rat).Sub(end, start)
+	if len(args) >= 2 && diff.Sign() != 0 && model.NumText(args[0].N.Float()) == model.NumText(args[1].N.Float()) {
+		// start and end differ numerically but are equal under the documented
+		// text-based number equality (C03's subject): empty or not is open
+		return abstain("start and end equal by text only")
+	}
 	if diff.Sign() != 0 && diff.Sign() != step.Sign() {
 		return ood("step direction contradicts start/end")
 	}
@@ -828,6 +835,26 @@ func refRange(args []spec.V) outcome {
 	for _, a := range args {
 		if !dyadicSmall(a.N) {
 			exact = false
+		}
+	}
+	wideExact := false
+	if !exact {
+		// Also exact: every partial sum (the overshooting one included) fits
+		// the mantissa of the less precise of start and step - however far
+		// from zero the range lies, and however large the numbers are.
+		if p := minPrec(startNum(args), stepNum(args)); p > 0 && cnt.Cmp(big.NewInt(1024)) <= 0 {
+			fits := true
+			cur := new(big.Rat).Set(start)
+			for i := 0; i <= n && fits; i++ {
+				if mantBits(cur) > p {
+					fits = false
+				}
+				cur = new(big.Rat).Add(cur, step)
+			}
+			if fits {
+				exact = true
+				wideExact = true
+			}
 		}
 	}
 	if !exact {
@@ -881,6 +908,7 @@ func refRange(args []spec.V) outcome {
 		f = append(f, "at-cap")
 	}
 	o := val(out, f...)
+	o.skipRaw = wideExact
 	if !exact {
 		o.numTol = true
 		o.tol = new(big.Rat).Mul(new(big.Rat).Abs(step), big.NewRat(1, 1<<20))
@@ -891,6 +919,61 @@ func refRange(args []spec.V) outcome {
 // dyadicSmall: the number is k/2^m with m <= 12 and |value| < 2^40, built by a
 // route whose precision (>= 53 bits) holds every partial sum of up to 1024 such
 // numbers exactly.
+// startNum is the start operand of a range call (nil when it is defaulted to zero).
+func startNum(args []spec.V) *spec.Num {
+	if len(args) >= 2 {
+		return args[0].N
+	}
+	return nil
+}
+
+// stepNum is the step operand of a range call (nil when it is defaulted).
+func stepNum(args []spec.V) *spec.Num {
+	if len(args) == 3 {
+		return args[2].N
+	}
+	return nil
+}
+
+// minPrec is the smaller mantissa precision of the given operands as their
+// construction route documents it (0: unknown). A defaulted step is +-1.
+func minPrec(ns ...*spec.Num) int {
+	p := 1 << 30
+	for _, n := range ns {
+		q := 64 // the default step is an integer constant
+		if n != nil {
+			switch n.Route {
+			case "int", "uint":
+				q = 64
+			case "float":
+				q = 53
+			case "parse":
+				q = 512
+			default:
+				return 0
+			}
+		}
+		if q < p {
+			p = q
+		}
+	}
+	return p
+}
+
+// mantBits is the number of mantissa bits a binary float needs to hold r
+// exactly (1<<30 when r is not dyadic).
+func mantBits(r *big.Rat) int {
+	d := r.Denom()
+	if new(big.Int).And(d, new(big.Int).Sub(d, big.NewInt(1))).Sign() != 0 {
+		return 1 << 30
+	}
+	n := new(big.Int).Abs(r.Num())
+	if n.Sign() == 0 {
+		return 0
+	}
+	return n.BitLen() - int(n.TrailingZeroBits())
+}
+
 func dyadicSmall(n *spec.Num) bool {
 	switch n.Route {
 	case "int", "uint", "parse", "float", "zero", "negzero":
@@ -910,6 +993,16 @@ func dyadicSmall(n *spec.Num) bool {
 func ratNum(r *big.Rat) spec.V {
 	if r.IsInt() {
 		return spec.KnownNum(spec.NParse(r.Num().String()))
+	}
+	if d := r.Denom(); new(big.Int).And(d, new(big.Int).Sub(d, big.NewInt(1))).Sign() == 0 {
+		// k/2^m: the decimal expansion is finite (m digits after the point)
+		m := d.BitLen() - 1
+		prec := uint(r.Num().BitLen() + m + 16)
+		if prec < 2048 {
+			prec = 2048
+		}
+		f := new(big.Float).SetPrec(prec).SetRat(r)
+		return spec.KnownNum(spec.Num{Route: "big", Text: f.Text('f', m), Prec: prec})
 	}
 	f := new(big.Float).SetPrec(2048).SetRat(r)
 	return spec.KnownNum(spec.Num{Route: "big", Text: f.Text('g', 400), Prec: 2048})
